@@ -173,8 +173,8 @@ static void stack_knobs(System *S, Stacks *K) {
 
 static void cutchoose_systems(World &W, const Args &a) {
 	BarnettSmartVTMF_dlog *A = W.A, *B = W.B;
-	std::vector<size_t> ns = a.thorough() ? std::vector<size_t>{2, 3, 5, 8} : std::vector<size_t>{3};
-	unsigned long kappa = a.thorough() ? 10 : 6;
+	std::vector<size_t> ns = a.thorough() ? std::vector<size_t>{2, 3, 5} : std::vector<size_t>{3};
+	unsigned long kappa = a.thorough() ? 8 : 6;
 	for (size_t n : ns) for (int cyc = 0; cyc < 2; cyc++) {
 		SchindelhauerTMCG *T = new SchindelhauerTMCG(kappa, 2, 4);
 		Stacks *K = make_stacks(T, A, n, cyc);
